@@ -138,8 +138,12 @@ def _weave_states_in_region(
                     if_state = _weave_states_in_region(op.true_region, state.copy(), rewriter)
                     else_state = _weave_states_in_region(op.false_region, state.copy(), rewriter)
 
+                    # states that got invalidated in at least one branch are unknown after the if
+                    invalidated = [k for k in state if k not in if_state or k not in else_state]
                     # calculate the delta:
                     delta = calc_if_state_delta(state, if_state, else_state)
+                    for k in invalidated:
+                        del state[k]
                     # no delta = nothing to do
                     if not delta:
                         continue
@@ -187,6 +191,8 @@ def _weave_states_in_region(
                     # check which states got new uses:
                     # no state change in loop => nothing to do
                     if not updated_accelerators:
+                        if has_accfg_effects(op):
+                            state.clear()
                         continue
 
                     # insert empty setup ops for all setups that don't have a state before the loop
@@ -234,6 +240,11 @@ def _weave_states_in_region(
                     for arg in created_block_args:
                         assert isinstance(arg.type, accfg.StateType)
                         acc_name = arg.type.accelerator.data
+                        if acc_name not in after_for_state:
+                            # state got invalidated at the end of the body: yield an empty (unknown) state
+                            empty_setup = accfg.SetupOp([], [], acc_name)
+                            rewriter.insert_op(empty_setup, InsertPoint.before(yield_op))
+                            after_for_state[acc_name] = empty_setup.out_state
                         # extend the yield op to yield the state variable
                         yield_op.operands = (
                             *yield_op.operands,
@@ -251,6 +262,8 @@ def _weave_states_in_region(
                 # any other op that contains ops:
                 elif op.regions:
                     _weave_states_in_region(op, dict(), rewriter)
+                    if has_accfg_effects(op):
+                        state.clear()
                 # Check if the op has effects on accfg state
                 elif has_accfg_effects(op):
                     state.clear()
